@@ -34,7 +34,11 @@ TIERS = {
     "quick": dict(runs=32 * 8, budget_s=200, recheck=2, shrink_s=90.0, run_timeout_s=1200),
     "thorough": dict(runs=96 * 60, budget_s=1200, recheck=4, shrink_s=240.0, run_timeout_s=1800),
 }
-E_TOL = 2.0e-5  # finite-difference (eps = 1e-4) local energy of the AD-based trial + float32 samples
+E_TOL = 2.0e-5  # finite-difference (eps = 1e-4) local energy of the AD-based trial + float32 samples (block energies)
+# single local energies inside the compiled loops: the second difference (ov(+eps) - 2 ov(0) + ov(-eps)) / eps^2 / ov
+# carries round-off eps_machine / eps^2 times the cancellation in ov, which reaches a few 1e-5 for walkers with a
+# small trial overlap (thorough tier: 2 of 5299 runs at 2.4e-5 and 2.6e-5); wrong lists give deviations >= 1e-2
+E_TOL_WALKER = 2.0e-4
 RULE = (
     "run i uses compiled-menu entry i mod M (electron counts incl. open shell with n_dn >= 1, walker type, kind lists/driver, list route "
     "state-dict / dets.bin file / pyscf FCI, driver options and rank count) and draws the Hamiltonian, the CI vector (random or exact "
@@ -44,7 +48,7 @@ RULE = (
 )
 ASSUMPTIONS = [
     "exact eigenpair from numpy.linalg.eigh on the Fock engine's Hamiltonian; runs whose target eigenvalue is closer than 1e-3 to the next one are skipped (precondition)",
-    "local energies of the AD/finite-difference trial are compared at 2e-5 max(1,|E0|); driver samples are float32 casts",
+    "block energies and returned energies are compared at 2e-5 max(1,|E0|) (finite-difference trial, float32 samples), single local energies inside the loops at 2e-4 max(1,|E0|) (finite-difference round-off grows for walkers with small overlap)",
     "restricted walkers are used only with a closed-shell reference determinant (the library's restricted fast path is defined for that case; get_init_walkers refuses otherwise with an explicit error)",
     "full determinant lists (all determinants of the sector), so the compiled array shapes do not depend on the reference",
 ]
@@ -421,6 +425,7 @@ def _exec_driver(cfg, ctx):
         _bad(ctx, "zero_variance.driver_failed", site, cfg, error=str(e))
         return {"digest": None, "nontrivial": False}
     tol = E_TOL * max(1.0, abs(e0))
+    tol_w = E_TOL_WALKER * max(1.0, abs(e0))
     nf = 0
     for r in range(R):
         items = out["pickles"].get(r) or []
@@ -432,7 +437,7 @@ def _exec_driver(cfg, ctx):
         nf += float(np.asarray(last["verif_n_faults"]))
         if nprop < 50:
             raise HarnessError("in-loop local-energy monitor did not run")
-        if not dev <= tol:
+        if not dev <= tol_w:
             _bad(ctx, "zero_variance.local_energy_of_some_walker_is_not_the_eigenvalue", site, cfg, rank=r, max_deviation=dev, eigenvalue=e0, ref_det=ref, propagate_entries=nprop)
         ctx.count("local_energies_monitored", int(nprop) * cfg["n_walkers"])
     rows = lab.parse_samples(out["files"].get("samples_raw.dat", b""))
